@@ -535,6 +535,9 @@ def cli_converters(ctx, rid, modname, floor):
     seen = {}
     n = 0
     for f in m.functions.values():
+        # a helper that registers options shared by several sub-commands stands for one registration per call of the helper
+        uses = sum(1 for n_ in ast.walk(m.tree) if isinstance(n_, ast.Call) and ((isinstance(n_.func, ast.Name) and n_.func.id == f.name)
+                                                                              or (isinstance(n_.func, ast.Attribute) and n_.func.attr == f.name)))
         for c in walk_no_nested(f.node):
             if not (isinstance(c, ast.Call) and isinstance(c.func, ast.Attribute) and c.func.attr == "add_argument"):
                 continue
@@ -542,7 +545,7 @@ def cli_converters(ctx, rid, modname, floor):
             tk = next((k.value for k in c.keywords if k.arg == "type"), None)
             if tk is None or not flags:
                 continue
-            n += 1
+            n += max(1, uses)
             ok, found = False, ast.unparse(tk)
             if isinstance(tk, (ast.Name, ast.Attribute)):
                 r = repo.resolve_expr(m, tk)
@@ -559,6 +562,8 @@ def cli_converters(ctx, rid, modname, floor):
                         found = f"int(x, {ast.unparse(base)}): the digits the user wrote are read in a fixed other base"
             R.check(rid, ok, f"{ctx.fq(f)}: {flags[0]}", mod=m, node=c, function=ctx.fq(f), expected="int / lambda x: int(x, 0) / str / Path / enum class",
                     found=found, key_extra=flags[0])
+            for _ in range(max(1, uses) - 1):
+                R.ok(rid, f"{ctx.fq(f)}: {flags[0]} (registered once per call of the helper)")
             norm = ast.dump(tk)
             for fl in flags:
                 if fl in seen and seen[fl][0] != norm:
